@@ -38,7 +38,13 @@ func compileNesting(c *an.Ctx, r *runnerRoles, rule string) {
 		c.Und(rule, "runner.(*TaskCompiler).CompileTask", token.NoPos, "CompileTask not found")
 		return
 	}
-	sites := an.CallsIn(ct, fnCompileCmd)
+	ccr := resolveCmdCompiler(p)
+	var sites []ssa.CallInstruction
+	an.EachInstr(ct, func(in ssa.Instruction) {
+		if call, ok := ccr.asCall(in); ok {
+			sites = append(sites, call)
+		}
+	})
 	if len(sites) != 1 {
 		c.Und(rule, an.Short(ct)+":call(CompileCommand)", ct.Pos(), "expected one CompileCommand call site in CompileTask, found %d (commands may be compiled through a helper: nesting cannot be established)", len(sites))
 		return
@@ -81,7 +87,7 @@ func compileNesting(c *an.Ctx, r *runnerRoles, rule string) {
 	_, elems := inner.RangeKeyValue()
 	cmdOK := false
 	for _, e := range elems {
-		if an.SameValue(site.Call.Args[1], e) {
+		if cv := ccr.arg1(site, "command"); cv != nil && an.SameValue(cv, e) {
 			cmdOK = true
 		}
 	}
@@ -133,7 +139,7 @@ func compileNesting(c *an.Ctx, r *runnerRoles, rule string) {
 		}
 		ex := &an.Explorer{P: p, NoReturn: noReturn, MaxDepth: 2,
 			Inline: func(g *ssa.Function) bool {
-				return an.Outer(g).Pkg == ct.Pkg && g != ct && an.Short(g) != fnCompileCmd
+				return an.Outer(g).Pkg == ct.Pkg && g != ct && !ccr.isFn(g)
 			}}
 		inner.Bound(ex)
 		ex.Atom = func(v ssa.Value) (an.AVal, bool) {
